@@ -112,8 +112,14 @@ func (s *Schema) ExtendedType(name string, seen map[string]bool) bool {
 		if t == nil {
 			return false
 		}
-		if t.Kind >= KVarUint || (t.Kind == KNat && t.N == 32 && false) {
+		if t.Kind >= KVarUint {
 			return true
+		}
+		if t.Kind == KRef && t.A != nil && t.A.Kind == KCell {
+			return false // ^Cell: implemented
+		}
+		if t.Kind == KCell {
+			return true // inline Cell (the rest of the cell): the decoder copies without advancing
 		}
 		if t.Kind == KNamed && s.ExtendedType(t.Name, seen) {
 			return true
@@ -326,6 +332,9 @@ func Parse(src string) (*Schema, error) {
 		d := &Decl{Ctor: head}
 		if i := strings.IndexAny(head, "$#"); i >= 0 {
 			d.Ctor, d.Tag = head[:i], head[i:]
+			if d.Tag == "$_" || d.Tag == "#_" { // explicitly no tag
+				d.Tag = ""
+			}
 		}
 		for {
 			w := p.next()
@@ -391,7 +400,7 @@ func GenSchema(r *rand.Rand, maxDecls int, count func(string)) *Schema {
 						v = &Ty{Kind: KRef, A: v}
 					}
 				}
-				return &Ty{Kind: KHashmapE, N: []int{8, 32, 64, 256}[r.Intn(4)], A: v}
+				return &Ty{Kind: KHashmapE, N: []int{8, 32, 63, 64, 64, 256}[r.Intn(6)], A: v}
 			case 3:
 				count("tlb_hash")
 				return &Ty{Kind: KNat, N: 32, Name: "#"}
